@@ -114,6 +114,11 @@ func genC02(g *Gen) *Plan {
 	}
 	if store != "" {
 		p.InlineStore = g.p(0.3)
+		if g.p(0.5) {
+			// the store misbehaves (errors on read, write and delete, lost writes, slow calls):
+			// nothing of that may keep a request from completing
+			p.StoreFaults = storeFaults(g, 80, pick(g, 0.15, 0.4), "err", "notfound", "delay", "drop")
+		}
 	}
 	return p
 }
